@@ -335,7 +335,7 @@ func vfRunCrashPoint(t *testing.T, spec *vfSpec, res *vfRes) {
 					res.seen("abort-delivered")
 					if w != nil {
 						time.Sleep(100 * time.Millisecond)
-						for _, r := range w.runs {
+						for _, r := range w.allRuns() {
 							if r.wside != side {
 								continue // we want the readers that run on the peer of the aborting side
 							}
